@@ -10,6 +10,7 @@ import (
 	"github.com/Trendyol/go-dcp/stream/offset"
 
 	"github.com/Trendyol/go-dcp/tracing"
+	"github.com/Trendyol/go-dcp/vhook"
 
 	"github.com/Trendyol/go-dcp/membership"
 
@@ -299,6 +300,7 @@ func (s *stream) Rebalance() {
 	s.rebalanceStateLock.Unlock()
 
 	logger.Log.Info("rebalance starting")
+	vhook.At("rb.prelock")
 	s.rebalanceLock.Lock()
 
 	s.eventHandler.BeforeRebalanceStart()
@@ -414,8 +416,10 @@ func (s *stream) closeAllStreams() {
 func (s *stream) wait() {
 	select {
 	case <-s.finishStreamWithCloseCh:
+		vhook.At("wait.close")
 		s.streamFinishedWithCloseCh = true
 	case <-s.finishStreamWithEndEventCh:
+		vhook.At("wait.end")
 		s.streamFinishedWithEndEventCh = true
 	}
 
